@@ -120,8 +120,56 @@ def apply_mut(root, kind, rel, data, mtime):
                 with open(p, 'w') as fh:
                     fh.write(b[:-1] + c)
                 os.utime(p, ns=(st.st_mtime_ns, st.st_mtime_ns))
+    elif kind == 'corrupt':
+        if os.path.isfile(p):
+            corrupt_cache(p, data)
+    elif kind == 'todir':
+        if os.path.isfile(p):
+            os.remove(p)
+            os.mkdir(p)
     else:
         raise ValueError(kind)
+
+
+def corrupt_cache(p, cls):
+    """replace a valid cache file by a member of the corruption class `cls` (C15)"""
+    import gzip
+    import json
+    with open(p, 'rb') as fh:
+        raw = fh.read()
+    kind, _, param = cls.partition(':')
+    n = int(param) if param else 0
+    if kind == 'truncate':
+        out = raw[:max(0, min(len(raw) - 1, n))]
+    elif kind == 'bitflip':
+        i = n % len(raw)
+        out = raw[:i] + bytes([raw[i] ^ (1 << (n % 8))]) + raw[i + 1:]
+        try:    # a flip that keeps the file readable and equal is not a corruption
+            if json.loads(gzip.decompress(out)) == json.loads(gzip.decompress(raw)):
+                out = raw[: len(raw) // 2]
+        except Exception:
+            pass
+    elif kind == 'nongzip':
+        out = b'this is not gzip'
+    elif kind == 'gzip_nonjson':
+        out = gzip.compress(b'{not json')
+    elif kind in ('wrong_shape', 'other_software', 'newer_version', 'no_software'):
+        j = json.loads(gzip.decompress(raw))
+        if kind == 'wrong_shape':
+            j = [j]
+        elif kind == 'other_software':
+            j['software'] = 'make'
+        elif kind == 'no_software':
+            del j['software']
+        else:
+            j['cacheFileVersion'] = 2
+        out = gzip.compress(json.dumps(j).encode())
+    elif kind == 'empty':
+        out = b''
+    else:
+        raise ValueError(cls)
+    with open(p, 'wb') as fh:
+        fh.write(out)
 
 
 def show_exc(e, ctx=None):
@@ -184,7 +232,7 @@ def run_case(case, hooks=None):
                     res = {'exc': show_exc(e, ctx)}
                 obs = {'res': res, 'tree': snapshot(root, cache_abs), 'inv': ctx.inv, 'root': root,
                        'cache_json': read_cache_json(cache_abs) if 'ok' in res and os.path.isfile(cache_abs) else None,
-                       'queries': ctx.query_log,
+                       'queries': ctx.query_log, 'contract': ctx.contract,
                        'tmp_leak': [n for n in tmp_leftovers() if n not in before_tmp]}
                 if hooks and 'post_build' in hooks:
                     hooks['post_build'](ctx, root, cache_abs, obs)
